@@ -3,6 +3,16 @@
 STDLIB = "Go path/filepath/strings/io-fs functions are modelled (Base/Str, Base/Path), validated on the 'paths' lane, not verified"
 
 PROPS = {
+    "C03": {
+        "lanes": [
+            {"lane": "ignore", "quick": 4000, "thorough": 120000},
+        ],
+        "trusted_base": [STDLIB,
+                         "Go regexp engine restricted to the five fragments compile emits (lit, [^/]*, [^/], (.*/)?, .*) is modelled by matchT; bufio.ScanLines, strings.TrimSpace modelled",
+                         "facts regenerated from the source on every run: default rule table, escaped-character set, (?s) flag (Generated/Ignore.lean)"],
+        "assumptions": ["patterns with '[', ']' or '\\' are outside the modelled fragment (the rule language leaves them unspecified); '**' glued to other characters in one segment is outside WFVal"],
+        "explanation": "C03_compile_sound: for every well-formed stored pattern and EVERY path string the compiled regexp tokens decide exactly the segment-wise glob; C03_last_match_wins; C03_defaults (exact characterisation of the built-in rules); C03_marking (negationsAfter invariant of parsing, incl. the early break); C03_prune_sound under TailClosed + C03_cex_prune_star_tail. Tie: 'ignore' lane runs ParseIgnoreFileContent/Excludes next to the model and an independent Go segment-wise matcher.",
+    },
     "C11": {
         "lanes": [
             {"lane": "resolve", "quick": 2000, "thorough": 40000},
